@@ -130,4 +130,17 @@ theorem no_deadlock_internal {c : Cfg} {input : List Nat} {s : St} (h : Inv c in
       | zero => simp [St.terminal, St.allExited, hfd, hwt, hc] at hnt
       | succ k => exact ⟨.wExit, rfl, by simp [step, hfd, hwt]⟩
 
+/-- after Close / cancellation the feeder goroutine (and the once.Do waiters) can always move on
+    without the consumer -/
+theorem no_deadlock_stopped {c : Cfg} {input : List Nat} {s : St} (h : Inv c input s)
+    (hw : s.wdone = true) (hne : s.allExited = false) :
+    ∃ a, a.isGoroutine = true ∧ (step c s a).isSome = true := by
+  cases hfd : s.fd with
+  | running hh => exact ⟨.fCtx, rfl, by simp [step, hfd, hw]⟩
+  | notStarted => have := h.waiters_started hfd; simp [St.allExited, hfd, this] at hne
+  | exited =>
+    cases hwt : s.waiters with
+    | zero => simp [St.allExited, hfd, hwt] at hne
+    | succ k => exact ⟨.wExit, rfl, by simp [step, hfd, hwt]⟩
+
 end FunModel.Pipe.Feeder
